@@ -64,6 +64,9 @@ codes! { OpCode, OPS:
     BulkWeakDrop = "bulkweakdrop" / 2, // w, n
     BulkRegister = "bulkregister" / 2, // h, n   (n no-op actions on the cleaner of that node; the cleanables are kept)
     BulkClean = "bulkclean" / 2,   // h, n   (clean() on the next n kept cleanables of that node)
+    BulkEdges = "bulkedges" / 3,   // owner h, target h, n  (n traced pointers to the target stored in the owner)
+    BulkEdgesDrop = "bulkedgesdrop" / 2, // owner h, n
+    DebugChain = "debugchain" / 1, // n: format a chain of n nested Cc with {:?} and compare with the same chain of Boxes
     Compare = "compare" / 2,       // h, h   (forwarding traits, ptr_eq)
     Observe = "observe" / 0,       // explicit full observation (also runs after every op)
 }
